@@ -330,7 +330,11 @@ func c31(x *Ctx) {
 			if !ok {
 				for _, w2 := range eng.FieldWrites([]*ssa.Function{w.Fn}, curF) {
 					st2 := w2.Instr.(*ssa.Store)
-					if loadsField(st2.Val, futF) && eng.Dominates(st2, st) {
+					if !loadsField(st2.Val, futF) {
+						continue
+					}
+					// `c.current = c.future; c.future = new`, or `old := c.future; c.future = new; c.current = old`
+					if ld, isLd := st2.Val.(ssa.Instruction); eng.Dominates(st2, st) || (isLd && eng.Dominates(ld, st)) {
 						ok = true
 					}
 				}
